@@ -112,6 +112,20 @@ func loadKnown(verif string) ([]KnownFinding, error) {
 	if err := json.Unmarshal(b, &k); err != nil {
 		return nil, fmt.Errorf("known_findings.json: %w", err)
 	}
+	// further entries, one file each (committed; never written at run time)
+	more, _ := filepath.Glob(filepath.Join(verif, "known_findings.d", "*.json"))
+	sort.Strings(more)
+	for _, p := range more {
+		b, err := os.ReadFile(p)
+		if err != nil {
+			return nil, err
+		}
+		var one KnownFinding
+		if err := json.Unmarshal(b, &one); err != nil {
+			return nil, fmt.Errorf("%s: %w", p, err)
+		}
+		k = append(k, one)
+	}
 	return k, nil
 }
 
